@@ -113,6 +113,12 @@ pub struct OrderBook<const LEVELS: usize = 10> {
     orders: Vec<OrderEntry>,
     /// History of trades
     trades: Vec<Trade>,
+    /// Number of orders queued so far, used as the
+    /// time component of order keys so that orders
+    /// queued at the same price and time keep a
+    /// unique key and their queueing order
+    #[serde(skip_serializing)]
+    queue_count: Nanos,
     /// Flag if `true` placed orders will be
     /// matched, if `false` no trades will be
     /// executed (but orders can still be
@@ -166,8 +172,16 @@ impl<const LEVELS: usize> OrderBook<LEVELS> {
             bid_side: BidSide::new(),
             orders: Vec::new(),
             trades: Vec::new(),
+            queue_count: 0,
             trading,
         }
+    }
+
+    /// Get the next value in the order queueing sequence
+    fn next_queue_count(&mut self) -> Nanos {
+        let n = self.queue_count;
+        self.queue_count += 1;
+        n
     }
 
     /// Get the order book time
@@ -496,7 +510,7 @@ impl<const LEVELS: usize> OrderBook<LEVELS> {
             self.match_bid(order_entry);
         }
         if order_entry.order.status != Status::Filled {
-            let key: OrderKey = (Side::Bid, order_entry.key.1, self.t);
+            let key: OrderKey = (Side::Bid, order_entry.key.1, self.next_queue_count());
             order_entry.key = key;
             self.bid_side
                 .insert_order(key, order_entry.order.order_id, order_entry.order.vol)
@@ -539,7 +553,7 @@ impl<const LEVELS: usize> OrderBook<LEVELS> {
             self.match_ask(order_entry);
         }
         if order_entry.order.status != Status::Filled {
-            let key: OrderKey = (Side::Ask, order_entry.key.1, self.t);
+            let key: OrderKey = (Side::Ask, order_entry.key.1, self.next_queue_count());
             order_entry.key = key;
             self.ask_side
                 .insert_order(key, order_entry.order.order_id, order_entry.order.vol)
@@ -698,7 +712,7 @@ impl<const LEVELS: usize> OrderBook<LEVELS> {
         if order_entry.order.status != Status::Filled {
             match order_entry.key.0 {
                 crate::types::Side::Bid => {
-                    let key: OrderKey = get_bid_key(self.t, new_price);
+                    let key: OrderKey = get_bid_key(self.next_queue_count(), new_price);
                     order_entry.key = key;
 
                     self.bid_side.insert_order(
@@ -708,7 +722,7 @@ impl<const LEVELS: usize> OrderBook<LEVELS> {
                     );
                 }
                 crate::types::Side::Ask => {
-                    let key: OrderKey = get_ask_key(self.t, new_price);
+                    let key: OrderKey = get_ask_key(self.next_queue_count(), new_price);
                     order_entry.key = key;
 
                     self.ask_side.insert_order(
@@ -910,6 +924,13 @@ impl<const LEVELS: usize> std::convert::TryFrom<OrderBookState<LEVELS>> for Orde
             }
         }
 
+        let queue_count = state
+            .orders
+            .iter()
+            .map(|x| x.key.2)
+            .max()
+            .map_or(0, |x| x.saturating_add(1));
+
         Ok(Self {
             t: state.t,
             tick_size: state.tick_size,
@@ -918,6 +939,7 @@ impl<const LEVELS: usize> std::convert::TryFrom<OrderBookState<LEVELS>> for Orde
             bid_side,
             orders: state.orders,
             trades: state.trades,
+            queue_count,
             trading: state.trading,
         })
     }
